@@ -32,6 +32,13 @@ structure RegWF (r : Reg V) : Prop where
   labels_nodup : ∀ m, m ∈ r.metrics → (m.series.map (·.labels)).Nodup
   has_vec : ∀ m, m ∈ r.metrics → ∀ s, s ∈ m.series → ∃ v, v ∈ m.vecs ∧ v.names = s.labels.map (·.1)
 
+/-- no registered metric is named like a companion series (`_sum`, `_count`, for histograms also `_bucket`)
+    of a registered observer: the statsd families cannot collide by suffix in `Gather` -/
+def SuffixFree (r : Reg V) : Prop :=
+  ∀ m ∈ r.metrics, ∀ m' ∈ r.metrics,
+    (m.ty = .histogram → m'.name ≠ m.name ++ sfxSum ∧ m'.name ≠ m.name ++ sfxCount ∧ m'.name ≠ m.name ++ sfxBucket) ∧
+    (m.ty = .summary → m'.name ≠ m.name ++ sfxSum ∧ m'.name ≠ m.name ++ sfxCount)
+
 /-- two series agree in everything but the registration clock (`last`) and the `ttl` -/
 def Series.sameValue (s t : Series V) : Prop :=
   s.labels = t.labels ∧ s.f = t.f ∧ s.n = t.n ∧ s.bk = t.bk
